@@ -141,6 +141,11 @@ Definition file_entry_decode (bs : list Z) : res (file_entry * list Z) :=
       Ok ({| fe_name := name; fe_dir := d; fe_mtime := m; fe_length := l |}, r3)
   end.
 
+(* stream.seek(n, os.SEEK_CUR), n >= 0, on the list of remaining bytes (written so that a huge n
+   does not build a huge unary number when the model is run) *)
+Definition seek_fwd (n : Z) (bs : list Z) : list Z :=
+  if zlen bs <=? n then [] else skipn (Z.to_nat n) bs.
+
 Definition out (st : lstate) (es : list lentry) (fs : list file_entry) (bs rest : list Z) : res step_out :=
   Ok {| o_state := st; o_entries := es; o_files := fs; o_rest := rest;
         o_consumed := zlen bs - zlen rest |}.
@@ -149,6 +154,16 @@ Section Step.
   Variable c : lcfg.             (* byte order and address size of self.structs *)
   Variable h : lparams.          (* the header fields the loop reads *)
   Variable appendable : bool.    (* self['file_entry'] is a list (versions 2-4), not a tuple or None *)
+
+  (* advance_pc(operation_advance): the nested helper; returns the new state and address_addend *)
+  Definition advance_pc (state : lstate) (operation_advance : Z) : lstate * Z :=
+    let maximum_operations_per_instruction := p_max_ops h in
+    let address_addend :=
+      p_min_inst h * ((s_op_index state + operation_advance) / maximum_operations_per_instruction) in
+    let state := upd_address state (s_address state + address_addend) in
+    let state := upd_op_index state
+                   ((s_op_index state + operation_advance) mod maximum_operations_per_instruction) in
+    (state, address_addend).
 
   (* opcode >= opcode_base: "Special opcode (follow the recipe in 6.2.5.1)" *)
   Definition lp_special (state : lstate) (opcode : Z) (bs rest : list Z) : res step_out :=
@@ -171,13 +186,13 @@ Section Step.
     do (ex_opcode, r3) <- rd_uint8 r2;
     if ex_opcode =? DW_LNE_end_sequence then
       let state := upd_end_sequence state true in
-      let state := upd_is_stmt state 0 in
       let '(e, _) := add_entry_new_state ex_opcode [] true state in
       (* reset state *)
       out (LineState (p_default_is_stmt h)) [e] [] bs r3
     else if ex_opcode =? DW_LNE_set_address then
       do (operand, r4) <- of_opt EParse (uint_decode (c_le c) (c_addr_size c) r3);
       let state := upd_address state operand in
+      let state := upd_op_index state 0 in
       out state [add_entry_old_state ex_opcode [operand] true] [] bs r4
     else if ex_opcode =? DW_LNE_define_file then
       do (operand, r4) <- file_entry_decode r3;
@@ -196,7 +211,7 @@ Section Step.
               o_consumed := zlen bs - zlen r2 |}
       else
         Ok {| o_state := state; o_entries := []; o_files := [];
-              o_rest := skipn (Z.to_nat (inst_len - 1)) r3;
+              o_rest := seek_fwd (inst_len - 1) r3;
               o_consumed := zlen bs - zlen r3 + (inst_len - 1) |}.
 
   (* 0 < opcode < opcode_base: "Standard opcode" *)
@@ -206,8 +221,7 @@ Section Step.
       out state [e] [] bs r1
     else if opcode =? DW_LNS_advance_pc then
       do (operand, r2) <- rd_uleb r1;
-      let address_addend := operand * p_min_inst h in
-      let state := upd_address state (s_address state + address_addend) in
+      let '(state, address_addend) := advance_pc state operand in
       out state [add_entry_old_state opcode [address_addend] false] [] bs r2
     else if opcode =? DW_LNS_advance_line then
       do (operand, r2) <- rd_sleb r1;
@@ -224,12 +238,12 @@ Section Step.
       out (upd_basic_block state true) [add_entry_old_state opcode [] false] [] bs r1
     else if opcode =? DW_LNS_const_add_pc then
       let adjusted_opcode := 255 - p_opcode_base h in
-      let address_addend := (adjusted_opcode / p_line_range h) * p_min_inst h in
-      let state := upd_address state (s_address state + address_addend) in
+      let '(state, address_addend) := advance_pc state (adjusted_opcode / p_line_range h) in
       out state [add_entry_old_state opcode [address_addend] false] [] bs r1
     else if opcode =? DW_LNS_fixed_advance_pc then
       do (operand, r2) <- of_opt EParse (uint_decode (c_le c) 2 r1);
       let state := upd_address state (s_address state + operand) in
+      let state := upd_op_index state 0 in
       out state [add_entry_old_state opcode [operand] false] [] bs r2
     else if opcode =? DW_LNS_set_prologue_end then
       out (upd_prologue_end state true) [add_entry_old_state opcode [] false] [] bs r1
